@@ -23,6 +23,28 @@ NAMES = ["a", "b", "c", "x", "y", "_", "_ENV", "foo", "bar1", "self", "t", "f", 
          "stmt", "newline", "arg", "indent", "block", "name", "number", "string", "eof", "None"]
 
 
+def _internal_spellings() -> list[str]:
+    """identifiers spelled like the VALUES of the enums the running tree defines (TokenType, Separators): a new member must not become a
+    reserved word or a sentinel that ordinary names collide with"""
+    out: list[str] = []
+    try:
+        from tumfl.Token import TokenType
+        import tumfl.formatter as _fm
+        import tumfl.lexer as _lx
+        kws = set(getattr(_lx, "RESERVED_KEYWORDS", {})) | KEYWORDS | {"as", "is"}
+        for enum in (TokenType, getattr(_fm, "Separators", ())):
+            for m in enum:
+                for sp in (m.value,):
+                    if isinstance(sp, str) and sp.isidentifier() and sp.isascii() and sp not in kws and sp not in out and sp not in NAMES:
+                        out.append(sp)
+    except Exception:  # noqa: BLE001
+        pass
+    return sorted(out)
+
+
+NAMES += _internal_spellings()
+
+
 @dataclass
 class Cfg:
     max_depth: int = 6
